@@ -53,7 +53,7 @@ Holds(prop, o) == CASE prop = "C01" -> RevExact(o)
                     [] prop = "C05" -> GradInArgSpace(o)
                     [] prop = "C06" -> Transparent(o)
                     [] prop = "C07" -> SecondOrder(o)
-                    [] prop = "C09" -> RevExact(o) /\ FwdExact(o)
+                    [] prop = "C09" -> RevExact(o) /\ FwdExact(o) /\ o.ops_bad = 0    \* ops_bad: jacobian() / grad() of the configuration are the rows of its VJP
                     \* C11 / C12 state that indexing propagates derivatives exactly - unlike C01 they leave no room for "or the call raises"
                     [] prop = "C11" -> RevExact(o) /\ FwdExact(o) /\ ~o.vjp_raised /\ ~o.jvp_raised
                     [] prop = "C12" -> RevExact(o) /\ ~o.vjp_raised
